@@ -41,7 +41,8 @@ def gen(rng, tier, index):
     return {
         "cfg": {"version": version, "fmt": fmt, "prior": rng.choice(PRIORS), "bufsize": rng.choice([16, 64, 512, 8192, 8192]),
                 "kind": rng.choice(KINDS), "resolution": rng.choice(RESOLUTIONS), "journal_frac": rng.random(),
-                "cut": rng.random(), "point": rng.random(), "point2": rng.random()},
+                "cut": rng.random(), "point": rng.random(), "point2": rng.random(), "long_tmp": rng.random() < 0.5,
+                "relpath": rng.choice([None, None, None, "mysensors", "some_folder/mysensors"])},
         "old": diskutil.state_lines(rng, version, rng.randint(2, 25)),
         "new": diskutil.state_lines(rng, version, rng.randint(1, 12)) + [f"{rng.choice([1, 2, 3])};255;0;0;17;2.{rng.randrange(3)}"],
         "stale": diskutil.state_lines(rng, version, rng.randint(1, 6)),
@@ -55,7 +56,7 @@ def _vio(cls, detail, **sig):
 
 def run(case):
     cfg = case["cfg"]
-    dw = diskutil.DiskWorld(cfg["version"], cfg["fmt"], bufsize=cfg["bufsize"])
+    dw = diskutil.DiskWorld(cfg["version"], cfg["fmt"], bufsize=cfg["bufsize"], relpath=cfg.get("relpath"))
     violations, probes, faults = [], {}, {}
     incomplete = None
     key = None
@@ -63,8 +64,8 @@ def run(case):
     sample = None
     try:
         try:
-            path = dw.path
-            tmp = path.replace(".", ".tmp.", 1) if False else f"/work/mysensors.tmp.{cfg['fmt']}"
+            path = dw.abspath
+            tmp = path[: -len(cfg["fmt"]) - 1] + ".tmp." + cfg["fmt"]
             bak = path + ".bak"
             fs = dw.fs
             # ---- prior on-disk configuration -----------------------------------------
@@ -82,7 +83,12 @@ def run(case):
                     if "bak" in cfg["prior"]:
                         fs.put(bak, stale_bytes)
                     if "tmp" in cfg["prior"]:
-                        fs.put(tmp, stale_bytes[: max(1, len(stale_bytes) // 2)])
+                        # left behind by an earlier interrupted save: a torn short one, or a complete
+                        # file of a (then) larger state
+                        if cfg.get("long_tmp"):
+                            fs.put(tmp, stale_bytes + stale_bytes[len(stale_bytes) // 3:] * 3)
+                        else:
+                            fs.put(tmp, stale_bytes[: max(1, len(stale_bytes) // 2)])
                 dw.feed(gw_a, case["old"])
                 status, exc = dw.save(gw_a)
                 assert status == "ok", (status, exc)
